@@ -40,6 +40,7 @@ type Program struct {
 	Funcs map[string]*ssa.Function
 	Tags  string
 	CParams map[string][]string // C function name -> parameter names
+	CEnums  map[string]int64    // enumerators of the C headers
 }
 
 const ModPath = "github.com/onflow/crypto"
@@ -87,6 +88,7 @@ func Load(dir string, tags string) (*Program, error) {
 		}
 	}
 	P.CParams = parseCPrototypes(dir)
+	P.CEnums = parseCEnums(dir)
 	// enumerate functions: members, methods of named types (T and *T), anonymous functions
 	for _, sp := range P.SPkgs {
 		for _, m := range sp.Members {
